@@ -87,6 +87,9 @@ attributes, `__cause__`, notes).  The model never looks inside or rebuilds it: `
 re-raises `task.exception()` itself, so whatever is delivered is delivered with class and payload unchanged. -/
 inductive Outcome where
   | ret (v : Nat)
+  | retNoStore (v : Nat)   -- returns `v`, a value the cache decorator delivers but does not store: `cache` / `early` keep no
+                           -- returned value that is an `Exception` INSTANCE (`not isinstance(result, Exception)`).  For
+                           -- single-flight it is a returned value like any other: every waiter receives it as a VALUE
   | exc (cls : Nat) (payload : Nat)
   | cancelled
   deriving DecidableEq, Repr
@@ -287,6 +290,7 @@ def stepFinish (s : SfSt) (e : Nat) : SfSt :=
                  match x.outcome with
                  | .ret v => if s.caching = true ∧ x.hit = false then
                      upd s.cached x.key (some (v, s.now + s.earlyTtl, s.now + s.ttl)) else s.cached
+                 | .retNoStore _ => s.cached
                  | .exc _ _ => s.cached
                  | .cancelled => s.cached }
 
@@ -317,6 +321,7 @@ def stepRFinish (s : SfSt) (r : Nat) : SfSt :=
                cached :=
                  match y.outcome with
                  | .ret v => upd s.cached y.key (some (v, s.now + s.earlyTtl, s.now + s.ttl))
+                 | .retNoStore _ => s.cached
                  | .exc _ _ => s.cached
                  | .cancelled => s.cached }
 
